@@ -318,6 +318,46 @@ func execC12(e *Env, pp any) {
 		return
 	}
 	const prop = "C12"
+	// second phase, everything quiet: the peer uses id 1 again for a new client-streaming
+	// call (every earlier stream on that id was finished or reset and has gone): a valid
+	// later request like any other
+	nBefore := 0
+	histMu.Lock()
+	nBefore = len(got)
+	streamsBefore := streamRuns
+	histMu.Unlock()
+	e.Go("raw.reuse", func() {
+		hs := &goatorepo.RequestHeader{Method: methodNames[KCStream], Source: "raw", Destination: ServerID}
+		a.Write(rctx, &Rpc{Id: 1, Header: hs})
+		e.Pt("raw.probe")
+		a.Write(rctx, &Rpc{Id: 1, Header: hs, Body: bytesBody([]byte("again"))})
+		e.Pt("raw.probe")
+		a.Write(rctx, &Rpc{Id: 1, Header: hs, Status: &goatorepo.ResponseStatus{}, Trailer: &goatorepo.Trailer{}})
+	})
+	if rr := e.Settle(); rr == Crashed || rr == StepLimit {
+		return
+	}
+	histMu.Lock()
+	later := append([]*Rpc(nil), got[nBefore:]...)
+	reuseRan := streamRuns - streamsBefore
+	got = got[:nBefore]
+	streamRuns = streamsBefore
+	histMu.Unlock()
+	if !sr.Returned {
+		var rb, rt *Rpc
+		for _, r := range later {
+			if r.GetId() == 1 && r.GetTrailer() != nil && r.GetReset_() == nil {
+				rt = r
+			} else if r.GetId() == 1 && r.GetBody() != nil {
+				rb = r
+			}
+		}
+		if reuseRan != 1 || rt == nil || rt.GetStatus().GetCode() != 0 || rb == nil || !bytes.Equal(rb.GetBody().GetData(), bytesBody([]byte("count=1")).Data) {
+			e.Violate(prop, "probe-wrong", "stream.reused-id", "a new client-streaming call on id 1, sent once every earlier stream on that id had been finished or reset and the connection was quiet, was not served: handler runs %d, reply %q, trailer %v (sequence %v)", reuseRan, rb.GetBody().GetData(), rt.GetStatus(), seqString(p.Seq))
+		} else {
+			e.Note("c12.reused-id-served")
+		}
+	}
 	histMu.Lock()
 	resp := append([]*Rpc(nil), got...)
 	ur, strs := unaryRuns, streamRuns
